@@ -79,7 +79,7 @@ TSetupLevel == IsEvent("SetupLevel") /\ Consume /\ Quiet /\ UNCHANGED vars
 TSetupBuilt ==
   /\ IsEvent("SetupBuilt") /\ Consume /\ Quiet
   /\ SetupBuild
-  /\ built'.L = E.L /\ fgs' = (E.fgs = 1) /\ built'.ext = E.ext /\ built'.fmg = (E.fmg = 1)
+  /\ built'.lv = E.L /\ fgs' = (E.fgs = 1) /\ built'.ext = E.ext /\ built'.fmg = (E.fmg = 1)
 TSetupThrew ==
   /\ IsEvent("SetupThrew") /\ Consume /\ Quiet
   /\ SetupReject
@@ -114,7 +114,7 @@ TStartEvent ==
      \/ IsEvent("FMGDirect") /\ fmgSeq' = Append(fmgSeq, <<"direct", E.level>>) /\ cyc' = <<>>
      \/ IsEvent("FMGInterp") /\ fmgSeq' = Append(fmgSeq, <<"interp", E.from, E.to>>) /\ cyc' = <<>>
      \/ IsEvent("FMGCycle") /\ fmgSeq' = Append(fmgSeq, <<"cycle", E.level, E.ext>>)
-                            /\ cyc' = Calls(E.kind, E.ext, E.level, built.L)       \* the configured FMG cycle must be what runs
+                            /\ cyc' = Calls(E.kind, E.ext, E.level, built.lv)       \* the configured FMG cycle must be what runs
 
 \* the nested iteration the property describes: direct solve on the coarsest level, then level by level
 \* interpolate and improve with `its` cycles (extrapolated cycles only on the finest level)
@@ -123,7 +123,7 @@ FMGIdeal(lvl, its, ext) ==
   IF lvl = 0 THEN <<>>
   ELSE <<<<"interp", lvl, lvl - 1>>>> \o [i \in 1..its |-> <<"cycle", lvl - 1, IF lvl - 1 = 0 /\ ext # 0 THEN 1 ELSE 0>>]
        \o FMGIdeal(lvl - 1, its, ext)
-StartSeqIdeal(its) == IF opts.fmg THEN <<<<"direct", built.L - 1>>>> \o FMGIdeal(built.L - 1, its, built.ext)
+StartSeqIdeal(its) == IF opts.fmg THEN <<<<"direct", built.lv - 1>>>> \o FMGIdeal(built.lv - 1, its, built.ext)
                       ELSE <<<<"zero">>>>
 \* number of FMG cycles per level is a solve-relevant option the model does not carry: read it off the trace
 ItsOf(seq) == Cardinality({i \in 1..Len(seq) : seq[i][1] = "cycle" /\ seq[i][2] = 0})
@@ -135,7 +135,7 @@ TSolveBegin ==
   /\ SolveBegin
   /\ StartRefinesFMG                                   \* C09: the start-up is the nested iteration
   /\ E.normsSz = Len(resNorms') /\ E.errsSz = Len(exErrs') /\ (E.fgs = 1) = fgs'
-  /\ (E.fmg = 1) = opts.fmg /\ E.ext = opts.ext /\ E.L = built.L
+  /\ (E.fmg = 1) = opts.fmg /\ E.ext = opts.ext /\ E.L = built.lv
   /\ E.maxIter = opts.maxIter /\ (E.absOn = 1) = opts.absOn /\ (E.relOn = 1) = opts.relOn /\ (E.exact = 1) = opts.exact
   /\ (meanRho' = ONE) <=> IsOne(E.rho)
   /\ pend' = NoPend /\ prevCur' = <<0, 0, 0>> /\ UNCHANGED <<fmgSeq, c01, cyc>>
@@ -191,7 +191,7 @@ TConvCheck ==
 
 TCycleRun ==
   /\ IsEvent("CycleRun") /\ Consume /\ UNCHANGED <<pend, prevCur, fmgSeq, c01>>
-  /\ cyc = <<>> /\ cyc' = Calls(E.kind, E.ext, 0, built.L)
+  /\ cyc = <<>> /\ cyc' = Calls(E.kind, E.ext, 0, built.lv)
   /\ RunCycle
   /\ E.k = k /\ (E.fgs = 1) = fgs /\ E.ext = (IF opts.ext # 0 THEN 1 ELSE 0)
 TCycleDone == IsEvent("CycleDone") /\ Consume /\ Quiet /\ UNCHANGED vars /\ pc = "head" /\ E.k = k /\ cyc = <<>>
@@ -221,6 +221,12 @@ TGet ==
   /\ pc = "idle" /\ justSolved
   /\ E.nIter = nIter
   /\ (E.hasErr = 1) = (GetErr # NoErr)
+\* the options as the getters report them after setup() / solve(): neither call changes what the user set
+TOpts ==
+  /\ IsEvent("Opts") /\ Consume /\ Quiet /\ UNCHANGED vars
+  /\ pc = "idle"
+  /\ E.ext = opts.ext /\ (E.fmg = 1) = opts.fmg /\ E.L = opts.L /\ (E.take = 1) = opts.take /\ (E.caches = 1) = opts.caches
+  /\ E.maxIter = opts.maxIter /\ (E.absOn = 1) = opts.absOn /\ (E.relOn = 1) = opts.relOn /\ E.grid = opts.grid
 \* comparison with a freshly constructed object given the same options, made by the driver (bitwise, 1 thread)
 TFresh ==
   /\ IsEvent("FreshCompare") /\ Consume /\ Quiet /\ UNCHANGED vars
@@ -234,7 +240,7 @@ TraceNext ==
   \/ TCtor \/ TSetOpt \/ TSetSame \/ TSetupBegin \/ TSetupLevel \/ TSetupBuilt \/ TSetupThrew
   \/ TSolveEnter \/ TStartEvent \/ TSolveBegin \/ TLoopHead \/ SLoopExit \/ TExactErr \/ SNoExact
   \/ TResNormEv \/ TReadFactorEv \/ TSwitchEv \/ TConvCheck \/ TCycleRun \/ TCycleDone \/ TSolveEnd
-  \/ TGet \/ TFresh \/ TIndep \/ TSolveThrew \/ TCycleEnter
+  \/ TGet \/ TOpts \/ TFresh \/ TIndep \/ TSolveThrew \/ TCycleEnter
 
 TraceSpec == TraceInit /\ [][TraceNext]_tvars
 
